@@ -23,6 +23,10 @@
 
 #include <arpa/inet.h>          /* ntohl() */
 #include <pthread.h>            /* pthread_t */
+#ifdef KJN_LBZIP2_VERIF
+#define VH_REDIRECT_PTHREAD
+#include "verif_hooks.h"
+#endif
 #include <signal.h>             /* SIGUSR2 */
 #include <unistd.h>             /* write() */
 
@@ -113,6 +117,9 @@ xread(void *vbuf, size_t *vacant)
   do {
     ssize_t rd;
 
+#ifdef KJN_LBZIP2_VERIF
+    vh_point(VH_PT_READ);
+#endif
     rd = read(ispec.fd, buffer, *vacant > (size_t)SSIZE_MAX ?
               (size_t)SSIZE_MAX : *vacant);
 
@@ -143,6 +150,9 @@ xwrite(const void *vbuf, size_t size)
     do {
       ssize_t wr;
 
+#ifdef KJN_LBZIP2_VERIF
+      vh_point(VH_PT_WRITE);
+#endif
       wr = write(ospec.fd, buffer, size > (size_t)SSIZE_MAX ?
                  (size_t)SSIZE_MAX : size);
 
@@ -603,7 +613,13 @@ copy(void)
 
   process = &pseudo_process;
   init_io();
+#ifdef KJN_LBZIP2_VERIF
+  vh_halt_enter();
+#endif
   halt();
+#ifdef KJN_LBZIP2_VERIF
+  vh_halt_leave();
+#endif
   uninit_io();
 }
 
@@ -615,7 +631,13 @@ schedule(const struct process *proc)
 
   worker_thread = XNMALLOC(num_worker, pthread_t);
   *worker_thread = xcreate(&primary_thread_entry);
+#ifdef KJN_LBZIP2_VERIF
+  vh_halt_enter();
+#endif
   halt();
+#ifdef KJN_LBZIP2_VERIF
+  vh_halt_leave();
+#endif
   xjoin(*worker_thread);
   free(worker_thread);
 }
